@@ -156,12 +156,27 @@ var Corpus = []Scenario{
 		sc := BaseStrategy()
 		sc.MaxUnavailable = "25%"
 		sc.SlowStartIncrease = "25%"
-		x.Setup(4, "A", sc)
 		for i := 5; i <= 8; i++ {
 			x.do(Action{Op: "NodeAdd", N: "n" + strconv.Itoa(i), V: "", W: "z=z1"})
 		}
+		x.Setup(4, "A", sc)
 		x.Template("B")
 		x.D.Converge(60)
+	}},
+	{"rolling-update-percent-few-nodes", []string{"C02", "C03"}, func(x Scn) {
+		// a percentage of a small number of nodes still rounds up to one pod: the rollout must not stall
+		sc := BaseStrategy()
+		sc.MaxUnavailable = "25%"
+		x.Setup(3, "A", sc)
+		x.Template("B")
+		x.D.Converge(40)
+		x.do(Action{Op: "NodeTaint", N: "n2", V: "on"})
+		x.do(Action{Op: "NodeTaint", N: "n3", V: "on"})
+		sc.MaxUnavailable = "50%"
+		x.D.Strategy[Key] = sc
+		x.do(Action{Op: "SetStrategy", Key: Key})
+		x.Template("C")
+		x.D.Converge(40)
 	}},
 	{"rolling-update-percent", []string{"C03", "C02", "C09", "C14"}, func(x Scn) {
 		sc := BaseStrategy()
@@ -453,6 +468,43 @@ var Corpus = []Scenario{
 		x.K("KFail", "n3", 1, "")
 		x.D.Converge(40)
 	}},
+	{"canary-replicas-lowered", []string{"C04", "C15"}, func(x Scn) {
+		// the number of canary replicas is lowered while the canary runs: the list must not grow
+		sc := CanaryStrategy("3")
+		sc.CMode, sc.CDuration, sc.CNoRestarts = "manual", 0, -1
+		x.Setup(6, "A", sc)
+		x.Template("B")
+		x.Rounds(3)
+		sc.CReplicas = "2"
+		x.D.Strategy[Key] = sc
+		x.do(Action{Op: "SetStrategy", Key: Key})
+		x.Rounds(3)
+		// a percentage whose base shrinks
+		sc.CReplicas = "50%"
+		x.D.Strategy[Key] = sc
+		x.do(Action{Op: "SetStrategy", Key: Key})
+		x.Rounds(2)
+		x.do(Action{Op: "NodeRemove", N: "n6"})
+		x.do(Action{Op: "NodeRemove", N: "n5"})
+		x.Rounds(4)
+		x.Ann("c-valid", "B")
+		x.D.Converge(60)
+	}},
+	{"canary-validate-stale", []string{"C05", "C19"}, func(x Scn) {
+		// a second template change while a canary runs; the validation written meanwhile names the FIRST canary
+		sc := CanaryStrategy("1")
+		sc.CDuration = 10
+		x.Setup(3, "A", sc)
+		x.Template("B")
+		x.AwaitCanaryPods(8)
+		x.Template("C")
+		x.EDS()
+		x.Ann("c-valid", "B")
+		x.EDS()
+		x.Rounds(3)
+		x.Ann("c-valid", "C")
+		x.D.Converge(60)
+	}},
 	{"canary-node-removed", []string{"C15", "C04", "C02"}, func(x Scn) {
 		x.Setup(4, "A", CanaryStrategy("2"))
 		x.Template("B")
@@ -663,15 +715,9 @@ func runTraces(a CLIArgs) int {
 	props := strings.Split(a.In, ",")
 	names := []string{}
 	for _, sc := range Corpus {
-		use := false
-		for _, p := range props {
-			if p == "*" || has(sc.Props, p) {
-				use = true
-			}
-		}
-		if !use {
-			continue
-		}
+		// every property's formulas are evaluated on the whole corpus: a scenario written for one property regularly turns out
+		// to be the one that exposes a change to another (the Props tags are documentation)
+		_ = props
 		d.Reset(Options{}, sc.Name)
 		sc.Run(Scn{D: d, R: rand.New(rand.NewSource(a.Seed))})
 		names = append(names, sc.Name)
